@@ -148,9 +148,17 @@ var c18Tmpls = [][]c18TL{
 		{1, "（显示：圈）", false, false, 1, -1},
 		{0, "（显示：“完”）", false, false, 1, -1},
 	},
+	{ // 6: inside the handler that runs because the body raised (the raise statement is the line the
+		// handler is entered from; nothing can stand behind the raise or behind the handler block)
+		{0, "令数 = 1", false, false, 1, -1},
+		{0, "抛出异常：“先”！", false, false, 0, -1},
+		{0, "拦截异常：", true, true, 0, -1},
+		{1, "令内 = 2", false, false, 2, 1},
+		{1, "（显示：内）", false, false, 2, 1},
+	},
 }
 
-var c18TmplNames = []string{"sequence", "in_如果_否则", "in_每当", "in_遍历_如果", "around_method_definition", "每当_condition_second_pass"}
+var c18TmplNames = []string{"sequence", "in_如果_否则", "in_每当", "in_遍历_如果", "around_method_definition", "每当_condition_second_pass", "in_the_handler_of_the_body"}
 
 type c18Slot struct {
 	gap, ind int // the fault line goes before template line gap, at indent ind
@@ -1252,7 +1260,7 @@ func c18Enumerate(tier string, visit func(p c18Params)) {
 	if thorough {
 		sites = []int{0, 1, 2, 3, 4, 5, 6}
 	}
-	for ti := 0; ti <= 5; ti++ {
+	for ti := 0; ti <= 6; ti++ {
 		slots := c18Slots(ti)
 		kinds := len(c18RunFaults)
 		if ti == 5 {
@@ -1261,6 +1269,9 @@ func c18Enumerate(tier string, visit func(p c18Params)) {
 		for si, s := range slots {
 			if s.st == 0 {
 				continue
+			}
+			if ti == 6 && s.via < 0 {
+				continue // in the body itself the fault would be caught by the template's own handler
 			}
 			lastGap := s.gap == len(c18Tmpls[ti]) && s.via < 0 && ti != 5
 			for kind := 0; kind < kinds; kind++ {
